@@ -143,6 +143,31 @@ def check_program(case, norders):
             continue
         if r != base[1]:
             return ("kind table depends on presentation order: %s vs %s: %s" % (base[0], label, diff(base[1], r))), info
+    # the same presentation in other containers: the phases may be any iterables (the Fortran generator passes
+    # generators), and infer_kinds() takes them from the DAGCode's phase dictionary in whatever order that has
+    from dagrt.data import SymbolKindFinder, infer_kinds
+    import dagrt.language as lang
+    for label, ns, ls in orders_for(canon(method), names, lists, min(norders, 4)):
+        for cname, conv in (("tuples", tuple), ("generators", lambda l: (x for x in l)), ("iterators", iter)):
+            try:
+                skt, _ = K.quiet(SymbolKindFinder(freg), list(ns), [conv(l) for l in ls])
+                r = ("ok", K.table_repr(skt))
+            except Exception:
+                r = ("raises", "")
+            if r != base[1]:
+                return ("kind table depends on the container the statements come in: %s as lists vs %s as %s: %s"
+                        % (base[0], label, cname, diff(base[1], r))), info
+        try:
+            dag2 = lang.DAGCode({n: dag.phases[n] for n in ns}, dag.initial_phase)
+            # (statement order inside a phase is the phase's own; only the order of the phases varies here)
+            skt, _ = K.quiet(infer_kinds, dag2, freg)
+            r = ("ok", K.table_repr(skt))
+        except Exception:
+            r = ("raises", "")
+        first = infer(ns, [list(dag.phases[n].statements) for n in ns], freg)
+        if r != first:
+            return ("infer_kinds(dag) with phases inserted as %s differs from SymbolKindFinder on the same phases: %s"
+                    % (list(ns), diff(first, r))), info
     return None, info
 
 
